@@ -391,6 +391,18 @@ async fn run_scenario(sc: Value, sock: PathBuf, meaning: Map<String, Value>) -> 
     cfg.unix_endpoint = Some(UnixEndpoint { path: sock.clone() });
     cfg.unix_disabled = false;
     cfg.extended_monitoring = b(&sc, "extmon");
+    // "transport": "tcp" | "ws": the library connects over the server's TCP / WebSocket endpoint
+    let transport = sc["transport"].as_str().unwrap_or("unix").to_owned();
+    let port = std::net::TcpListener::bind("127.0.0.1:0").and_then(|l| l.local_addr()).map(|a| a.port()).unwrap_or(0);
+    if transport == "tcp" {
+        cfg.tcp_endpoint = Some(worterbuch::Endpoint { tls: false, bind_addr: [127, 0, 0, 1].into(), port });
+        cfg.tcp_disabled = false;
+    } else if transport == "ws" {
+        cfg.ws_endpoint = Some(worterbuch::WsEndpoint {
+            endpoint: worterbuch::Endpoint { tls: false, bind_addr: [127, 0, 0, 1].into(), port },
+            public_addr: "localhost".to_owned(),
+        });
+    }
     let (api_tx, api_rx) = oneshot::channel();
     let server = tokio::spawn(async move {
         let r = tosub::build_root("wbverif")
@@ -408,7 +420,7 @@ async fn run_scenario(sc: Value, sock: PathBuf, meaning: Map<String, Value>) -> 
         return json!({"error": "server did not start"});
     };
     for _ in 0..500 {
-        if sock.exists() {
+        if sock.exists() && (transport == "unix" || crate::sock_drv::tcp_listening(port)) {
             break;
         }
         tokio::time::sleep(Duration::from_millis(5)).await;
@@ -420,10 +432,10 @@ async fn run_scenario(sc: Value, sock: PathBuf, meaning: Map<String, Value>) -> 
         lsstreams: Mutex::new(BTreeMap::new()),
     });
     let mut ccfg = wcl::config::Config::new();
-    ccfg.proto = "unix".to_owned();
+    ccfg.proto = transport.clone();
     ccfg.socket_path = Some(sock.clone());
     let open_inv = tick(&sh);
-    let dummy: SocketAddr = "127.0.0.1:1".parse().expect("addr");
+    let dummy: SocketAddr = format!("127.0.0.1:{}", if transport == "unix" { 1 } else { port }).parse().expect("addr");
     let (wb, _on_disco) = match wcl::try_connect(ccfg, dummy).await {
         Ok(x) => x,
         Err(e) => {
@@ -556,7 +568,8 @@ async fn run_scenario(sc: Value, sock: PathBuf, meaning: Map<String, Value>) -> 
     subsys.request_global_shutdown();
     let clean = tokio::time::timeout(Duration::from_secs(10), server).await.map(|r| r.unwrap_or(false)).unwrap_or(false);
     let res = json!({"sessions": sess_out, "streams": streams, "lsstreams": lsstreams, "extra": [], "exact": exact,
-           "auth_required": false, "server_clean_exit": clean, "extmon": b(&sc, "extmon")});
+           "auth_required": false, "server_clean_exit": clean, "extmon": b(&sc, "extmon"),
+           "proto": match transport.as_str() { "tcp" => "TCP", "ws" => "WS", _ => "UNIX" }});
     let names = sh.names.lock().await;
     names.translate(&res)
 }
